@@ -93,6 +93,7 @@ type Client struct {
 	l                 sync.Mutex
 	address           net.Addr
 	runner            runner.AttachedRunner
+	launched          bool
 	client            ClientProtocol
 	protocol          Protocol
 	logger            hclog.Logger
@@ -586,6 +587,15 @@ func (c *Client) Start() (addr net.Addr, err error) {
 		return c.address, nil
 	}
 
+	// The plugin was launched before but there is no address: an earlier Start
+	// failed after the launch. As documented above the client cannot be started
+	// again: a second launch would leak another process and socket directory and
+	// reuse the wait groups and the cancel function that the goroutines of the
+	// first launch are still using.
+	if c.launched {
+		return nil, fmt.Errorf("plugin was already launched by this Client and cannot be started again; create a new Client")
+	}
+
 	// If one of cmd or reattach isn't set, then it is an error. We wrap
 	// this in a {} for scoping reasons, and hopeful that the escape
 	// analysis will pop the stack here.
@@ -745,6 +755,7 @@ func (c *Client) Start() (addr net.Addr, err error) {
 	if err != nil {
 		return nil, err
 	}
+	c.launched = true
 
 	// Make sure the command is properly cleaned up if there is an error
 	defer func() {
